@@ -39,8 +39,10 @@ def model : Handler := fun j => do
 a line number, in pre-order; and the list of positioned type names. -/
 def spec : Handler := fun j => do
   let t ← C15.getTree j
-  let ps := positionedNodes (tweak [] (onTheFly specCfg t))
-  pure (Json.mkObj [("nodes", Json.arr (ps.map fun p => Json.arr #[strJ p.1, Json.num (p.2 : Nat)]).toArray)])
+  let t' := tweak [] (onTheFly specCfg t)
+  let ps := positionedNodes t'
+  pure (Json.mkObj [("nodes", Json.arr (ps.map fun p => Json.arr #[strJ p.1, Json.num (p.2 : Nat)]).toArray),
+    ("wf", Json.bool (treeOk t'))])
 
 def handlers : List (String × Handler) :=
   [("c01.matches", matchesH), ("c01.bindings", bindings), ("c01.model", model), ("c01.spec", spec)]
